@@ -41,8 +41,8 @@ def check(ctx: Ctx) -> None:
         if attached and other.get("fce"):
             ctx.ob("C07.keep", f"{lt},{rt}", "902" in str(out[4]),
                    f"then_also_composition({lt}, {rt}) drops the partner's own collected expression: {out[4]!r}", file=FILE, function="_then_also")
-    template_rule(ctx)
-    report_sweep(ctx, ("C07.tree",), "src/ahbicht/expressions/expression_builder.py")
+    ctx.soft(lambda: template_rule(ctx))
+    ctx.soft(lambda: report_sweep(ctx, ("C07.tree",), "src/ahbicht/expressions/expression_builder.py"))
     ctx.assume("precedence of the re-parse is the documented one (C01)")
 
 
